@@ -163,13 +163,20 @@ def check_config(ctx, rep, cfg):
 
 
 def stream_mac(rep, prog, f, tag):
+    from ..inline import inline
+    f = inline(prog, f)     # private helpers (length encoding, padding, ...) folded in
     atoms = cm.mac_prim_atoms(f)
     if not atoms:
         return
     cmpb = atoms[0].bb
     ups = [c for c in f.calls() if cm.POLY_UPDATE.search(c.rpath) and c.bb in f.dom[cmpb]]
-    ad = f.arg_local("associated_data")
-    ct = f.arg_local("ciphertext")
+    # parameters by type, not by name: the wire bytes are the only `&[u8]`, the associated data the
+    # only `Option<&[u8]>`
+    def only(pred):
+        c = [p for p in cm.params_of(f) if pred(f.locals[p]["t"])]
+        return c[0] if len(c) == 1 else None
+    ad = only(lambda t: t.startswith(("std::option::Option<&", "core::option::Option<&", "Option<&")) and "[u8]" in t and "mut" not in t)
+    ct = only(lambda t: t in ("&[u8]", "&'_ [u8]"))
     if ad is None or ct is None:
         rep.violation("ANCHOR", f.path + "|params", "stream pull lacks ciphertext/associated_data parameters")
         return
